@@ -6,6 +6,7 @@ import (
 	"fmt"
 	"io"
 	"time"
+	"unicode/utf8"
 
 	"github.com/jdillenkofer/pithos/internal/auditlog"
 )
@@ -24,44 +25,82 @@ type jsonEntry struct {
 	SignatureEd25519 string          `json:"signature_ed25519"`
 }
 
+// jsonText is a free-text field of a log entry. A JSON string can only hold
+// valid UTF-8 and encoding/json silently replaces every other byte with U+FFFD,
+// which would change the entry behind its hash. A value that is not valid UTF-8
+// is therefore written as {"hex": "<bytes>"} instead of a string.
+type jsonText string
+
+type jsonHexText struct {
+	Hex string `json:"hex"`
+}
+
+func (t jsonText) MarshalJSON() ([]byte, error) {
+	if utf8.ValidString(string(t)) {
+		return json.Marshal(string(t))
+	}
+	return json.Marshal(jsonHexText{Hex: hex.EncodeToString([]byte(t))})
+}
+
+func (t *jsonText) UnmarshalJSON(b []byte) error {
+	if len(b) > 0 && b[0] == '{' {
+		var ht jsonHexText
+		if err := json.Unmarshal(b, &ht); err != nil {
+			return err
+		}
+		raw, err := hex.DecodeString(ht.Hex)
+		if err != nil {
+			return err
+		}
+		*t = jsonText(raw)
+		return nil
+	}
+	var str string
+	if err := json.Unmarshal(b, &str); err != nil {
+		return err
+	}
+	*t = jsonText(str)
+	return nil
+}
+
 type jsonLogDetails struct {
 	Operation string `json:"operation"`
 	Phase     string `json:"phase"`
 	Resource  struct {
-		Bucket       string `json:"bucket"`
-		Key          string `json:"key,omitempty"`
-		UploadID     string `json:"upload_id,omitempty"`
-		PartNumber   int32  `json:"part_number,omitempty"`
-		SourceBucket string `json:"source_bucket,omitempty"`
-		SourceKey    string `json:"source_key,omitempty"`
+		Bucket       jsonText `json:"bucket"`
+		Key          jsonText `json:"key,omitempty"`
+		UploadID     jsonText `json:"upload_id,omitempty"`
+		PartNumber   int32    `json:"part_number,omitempty"`
+		SourceBucket jsonText `json:"source_bucket,omitempty"`
+		SourceKey    jsonText `json:"source_key,omitempty"`
 	} `json:"resource"`
 	Actor struct {
-		CredentialID string `json:"credential_id,omitempty"`
-		AuthType     string `json:"auth_type,omitempty"`
+		CredentialID jsonText `json:"credential_id,omitempty"`
+		AuthType     string   `json:"auth_type,omitempty"`
 	} `json:"actor"`
 	Request struct {
-		RequestID string `json:"request_id,omitempty"`
-		TraceID   string `json:"trace_id,omitempty"`
-		ClientIP  string `json:"client_ip,omitempty"`
+		RequestID jsonText `json:"request_id,omitempty"`
+		TraceID   jsonText `json:"trace_id,omitempty"`
+		ClientIP  jsonText `json:"client_ip,omitempty"`
 	} `json:"request"`
 	Outcome struct {
-		StatusCode int32  `json:"status_code"`
-		Outcome    string `json:"outcome,omitempty"`
-		ErrorCode  string `json:"error_code,omitempty"`
-		Error      string `json:"error,omitempty"`
-		DurationMs int64  `json:"duration_ms"`
+		StatusCode int32    `json:"status_code"`
+		Outcome    string   `json:"outcome,omitempty"`
+		ErrorCode  jsonText `json:"error_code,omitempty"`
+		Error      jsonText `json:"error,omitempty"`
+		DurationMs int64    `json:"duration_ms"`
 	} `json:"outcome"`
 }
 
 type jsonLogDetailsV1 struct {
-	Operation  string `json:"operation"`
-	Phase      string `json:"phase"`
-	Bucket     string `json:"bucket"`
-	Key        string `json:"key,omitempty"`
-	UploadID   string `json:"upload_id,omitempty"`
-	PartNumber int32  `json:"part_number,omitempty"`
-	Actor      string `json:"actor"`
-	Error      string `json:"error,omitempty"`
+	Operation  string   `json:"operation"`
+	Phase      string   `json:"phase"`
+	Bucket     jsonText `json:"bucket"`
+	Key        jsonText `json:"key,omitempty"`
+	UploadID   jsonText `json:"upload_id,omitempty"`
+	PartNumber int32    `json:"part_number,omitempty"`
+	Actor      jsonText `json:"actor"`
+	Error      jsonText `json:"error,omitempty"`
 }
 
 type jsonGroundingDetails struct {
@@ -82,33 +121,33 @@ func (s *JsonSerializer) Encode(w io.Writer, e *auditlog.Entry) error {
 			details, err = json.Marshal(jsonLogDetailsV1{
 				Operation:  string(d.Operation),
 				Phase:      string(d.Phase),
-				Bucket:     d.Resource.Bucket,
-				Key:        d.Resource.Key,
-				UploadID:   d.Resource.UploadID,
+				Bucket:     jsonText(d.Resource.Bucket),
+				Key:        jsonText(d.Resource.Key),
+				UploadID:   jsonText(d.Resource.UploadID),
 				PartNumber: d.Resource.PartNumber,
-				Actor:      d.Actor.CredentialID,
-				Error:      d.Outcome.Error,
+				Actor:      jsonText(d.Actor.CredentialID),
+				Error:      jsonText(d.Outcome.Error),
 			})
 		} else {
 			payload := jsonLogDetails{
 				Operation: string(d.Operation),
 				Phase:     string(d.Phase),
 			}
-			payload.Resource.Bucket = d.Resource.Bucket
-			payload.Resource.Key = d.Resource.Key
-			payload.Resource.UploadID = d.Resource.UploadID
+			payload.Resource.Bucket = jsonText(d.Resource.Bucket)
+			payload.Resource.Key = jsonText(d.Resource.Key)
+			payload.Resource.UploadID = jsonText(d.Resource.UploadID)
 			payload.Resource.PartNumber = d.Resource.PartNumber
-			payload.Resource.SourceBucket = d.Resource.SourceBucket
-			payload.Resource.SourceKey = d.Resource.SourceKey
-			payload.Actor.CredentialID = d.Actor.CredentialID
+			payload.Resource.SourceBucket = jsonText(d.Resource.SourceBucket)
+			payload.Resource.SourceKey = jsonText(d.Resource.SourceKey)
+			payload.Actor.CredentialID = jsonText(d.Actor.CredentialID)
 			payload.Actor.AuthType = string(d.Actor.AuthType)
-			payload.Request.RequestID = d.Request.RequestID
-			payload.Request.TraceID = d.Request.TraceID
-			payload.Request.ClientIP = d.Request.ClientIP
+			payload.Request.RequestID = jsonText(d.Request.RequestID)
+			payload.Request.TraceID = jsonText(d.Request.TraceID)
+			payload.Request.ClientIP = jsonText(d.Request.ClientIP)
 			payload.Outcome.StatusCode = d.Outcome.StatusCode
 			payload.Outcome.Outcome = string(d.Outcome.Outcome)
-			payload.Outcome.ErrorCode = d.Outcome.ErrorCode
-			payload.Outcome.Error = d.Outcome.Error
+			payload.Outcome.ErrorCode = jsonText(d.Outcome.ErrorCode)
+			payload.Outcome.Error = jsonText(d.Outcome.Error)
 			payload.Outcome.DurationMs = d.Outcome.DurationMs
 			details, err = json.Marshal(payload)
 		}
@@ -203,19 +242,19 @@ func (d *JsonDecoder) Decode() (*auditlog.Entry, error) {
 				Operation: auditlog.Operation(jd.Operation),
 				Phase:     auditlog.Phase(jd.Phase),
 				Resource: auditlog.ResourceDetails{
-					Bucket:     jd.Bucket,
-					Key:        jd.Key,
-					UploadID:   jd.UploadID,
+					Bucket:     string(jd.Bucket),
+					Key:        string(jd.Key),
+					UploadID:   string(jd.UploadID),
 					PartNumber: jd.PartNumber,
 				},
 				Actor: auditlog.ActorDetails{
-					CredentialID: jd.Actor,
+					CredentialID: string(jd.Actor),
 					AuthType:     auditlog.AuthTypeAnonymous,
 				},
 				Outcome: auditlog.OutcomeDetails{
 					StatusCode: statusCode,
 					Outcome:    outcomeType,
-					Error:      jd.Error,
+					Error:      string(jd.Error),
 				},
 			}
 			break
@@ -229,27 +268,27 @@ func (d *JsonDecoder) Decode() (*auditlog.Entry, error) {
 			Operation: auditlog.Operation(jd.Operation),
 			Phase:     auditlog.Phase(jd.Phase),
 			Resource: auditlog.ResourceDetails{
-				Bucket:       jd.Resource.Bucket,
-				Key:          jd.Resource.Key,
-				UploadID:     jd.Resource.UploadID,
+				Bucket:       string(jd.Resource.Bucket),
+				Key:          string(jd.Resource.Key),
+				UploadID:     string(jd.Resource.UploadID),
 				PartNumber:   jd.Resource.PartNumber,
-				SourceBucket: jd.Resource.SourceBucket,
-				SourceKey:    jd.Resource.SourceKey,
+				SourceBucket: string(jd.Resource.SourceBucket),
+				SourceKey:    string(jd.Resource.SourceKey),
 			},
 			Actor: auditlog.ActorDetails{
-				CredentialID: jd.Actor.CredentialID,
+				CredentialID: string(jd.Actor.CredentialID),
 				AuthType:     auditlog.AuthType(jd.Actor.AuthType),
 			},
 			Request: auditlog.RequestDetails{
-				RequestID: jd.Request.RequestID,
-				TraceID:   jd.Request.TraceID,
-				ClientIP:  jd.Request.ClientIP,
+				RequestID: string(jd.Request.RequestID),
+				TraceID:   string(jd.Request.TraceID),
+				ClientIP:  string(jd.Request.ClientIP),
 			},
 			Outcome: auditlog.OutcomeDetails{
 				StatusCode: jd.Outcome.StatusCode,
 				Outcome:    auditlog.OutcomeType(jd.Outcome.Outcome),
-				ErrorCode:  jd.Outcome.ErrorCode,
-				Error:      jd.Outcome.Error,
+				ErrorCode:  string(jd.Outcome.ErrorCode),
+				Error:      string(jd.Outcome.Error),
 				DurationMs: jd.Outcome.DurationMs,
 			},
 		}
